@@ -31,30 +31,38 @@ ASSUMPTIONS = [
     "files are only edited by the harness between runs, never during a run",
 ]
 BUDGET = {"quick": (260, 4), "thorough": (16000, 16)}
-REQUIRED = ["gens>=3", "alter", "restore", "nested", "sf", "new_format_added", "failed_recorded"]
+REQUIRED = ["gens>=3", "alter", "restore", "nested", "nested_depth>=3", "sf", "new_format_added", "failed_recorded"]
 CLI = refhash.CLI_FORMATS
 
-FILES = ["a.txt", "sub/b.bin", "sub/deep/c c.txt"]
-BASE = {"a.txt": "alpha", "sub/b.bin": ["00ff10", 3000], "sub/deep/c c.txt": ""}
+FILES = ["a.txt", "sub/b.bin", "sub/deep/c c.txt", "sub/deep/er/est/d.mov"]
+BASE = {"a.txt": "alpha", "sub/b.bin": ["00ff10", 3000], "sub/deep/c c.txt": "", "sub/deep/er/est/d.mov": "deepest"}
+ROOTS = ["sub", "sub/deep", "sub/deep/er", "sub/deep/er/est"]
 
 
 @st.composite
 def _scenario(draw):
-    nfiles = draw(st.integers(1, 3))
-    files = FILES[:nfiles] if draw(st.booleans()) else FILES[3 - nfiles:]
-    nested = draw(st.booleans()) and any(f.startswith("sub/") for f in files)
+    nfiles = draw(st.integers(1, 4))
+    files = FILES[:nfiles] if draw(st.booleans()) else FILES[4 - nfiles:]
+    nested = []
+    if draw(st.booleans()) and any(f.startswith("sub/") for f in files):
+        # a chain of nested histories, created innermost or outermost first before anything else happens
+        nested = draw(st.lists(st.sampled_from(ROOTS), min_size=1, max_size=4, unique=True))
+        nested = [r for r in nested if any(f.startswith(r + "/") for f in files)]
     ngen = draw(st.integers(1, 6))
     gens = []
-    for i in range(ngen):
+    for i in range(ngen + len(nested)):
         fm = draw(st.lists(st.sampled_from(CLI), min_size=1, max_size=draw(st.sampled_from([1, 1, 2, 2, 3, 6])), unique=True))
-        root = "sub" if nested and (i == 0 or draw(st.integers(0, 3)) == 0) else ""
-        scope = [f for f in files if root == "" or f.startswith("sub/")]
+        if i < len(nested):
+            root = nested[i]
+        else:
+            root = draw(st.sampled_from(nested)) if nested and draw(st.integers(0, 3)) == 0 else ""
+        scope = [f for f in files if root == "" or f.startswith(root + "/")]
         mode = draw(st.sampled_from(["folder", "folder", "sf"]))
         sel = None
         if mode == "sf":
             sel = draw(st.lists(st.sampled_from(scope), min_size=1, max_size=len(scope), unique=True))
         edits = {}
-        if i > 0:
+        if i >= max(1, len(nested)):
             for f in files:
                 edits[f] = draw(st.sampled_from(["keep", "keep", "keep", "alter", "restore"]))
         gens.append({"formats": fm, "root": root, "sf": sel, "edits": edits})
@@ -78,7 +86,7 @@ def enumerated(tier):
         for b in subs:
             yield {
                 "files": ["a.txt"],
-                "nested": False,
+                "nested": [],
                 "gens": [
                     {"formats": a, "root": "", "sf": None, "edits": {}},
                     {"formats": b, "root": "", "sf": None, "edits": {}},
@@ -89,7 +97,7 @@ def enumerated(tier):
 def run_case(scn, ctx):
     files = scn["files"]
     gens = scn["gens"]
-    ledger = {f: {} for f in files}  # file -> fmt -> first digest
+    ledger = {}  # (history, file) -> fmt -> first digest   (a file starts afresh in a deeper history created later)
     first_content = {}
     content = {}
     alters = 0
@@ -99,8 +107,7 @@ def run_case(scn, ctx):
         for f in files:
             w.put("R/" + f, BASE[f])
             content[f] = content_bytes(BASE[f])
-        if "sub/b.bin" not in files and scn["nested"]:
-            w.mkdir("R/sub")
+        created = []
         for gi, g in enumerate(gens):
             for f, e in g["edits"].items():
                 if e == "alter":
@@ -108,18 +115,30 @@ def run_case(scn, ctx):
                     w.put("R/" + f, new)
                     content[f] = new
                     alters += 1
-                elif e == "restore" and f in first_content and content[f] != first_content[f]:
-                    w.put("R/" + f, first_content[f])
-                    content[f] = first_content[f]
-                    restores += 1
+                elif e == "restore":
+                    firsts = [v for (h, ff), v in first_content.items() if ff == f]
+                    if firsts and content[f] != firsts[-1]:
+                        w.put("R/" + f, firsts[-1])
+                        content[f] = firsts[-1]
+                        restores += 1
             root = "R" + ("/" + g["root"] if g["root"] else "")
-            hist_of = lambda f: "R/sub" if (scn["nested"] and f.startswith("sub/")) else "R"
-            scope = [f for f in files if g["root"] == "" or f.startswith("sub/")]
+            if g["root"] and g["root"] not in created:
+                created.append(g["root"])
+
+            def hist_of(f, created=tuple(created)):
+                best = ""
+                for r in created:
+                    if f.startswith(r + "/") and len(r) > len(best):
+                        best = r
+                return "R" + ("/" + best if best else "")
+
+            allh = ["R"] + ["R/" + r for r in created]
+            scope = [f for f in files if g["root"] == "" or f.startswith(g["root"] + "/")]
             sealed = list(g["sf"]) if g["sf"] else scope
-            before = {h: len(w.manifests(h)) for h in {"R", "R/sub"}}
+            before = {h: len(w.manifests(h)) for h in allh}
             res = w.create(root, g["formats"], sf=["R/" + s for s in g["sf"]] if g["sf"] else None)
             F = sorted(set(g["formats"]))
-            altered = [f for f in sealed if f in first_content and content[f] != first_content[f]]
+            altered = [f for f in sealed if (hist_of(f), f) in first_content and content[f] != first_content[(hist_of(f), f)]]
             want_exit = 11 if altered else 0
             require(res.exc is None, "no-abort", "generation %d aborted: %s" % (gi + 1, res.brief()), res)
             require(
@@ -129,14 +148,14 @@ def run_case(scn, ctx):
                 res,
             )
             new_manifests = {}
-            for h in ("R", "R/sub"):
+            for h in allh:
                 ms = w.read_history(h)
                 if len(ms) == before[h] + 1:
                     new_manifests[h] = ms[-1][2]
             for f in sealed:
                 h = hist_of(f)
                 require(h in new_manifests, "record-present", "no new generation in %s for %s" % (h, f), res)
-                relp = f[len("sub/"):] if h == "R/sub" else f
+                relp = ("R/" + f)[len(h) + 1 :]
                 recs = [r for r in new_manifests[h]["records"] if r["kind"] == "file" and r["path"] == relp]
                 require(len(recs) == 1, "record-present", "generation %d: %d records for %s" % (gi + 1, len(recs), f), res)
                 E = {}
@@ -146,12 +165,12 @@ def run_case(scn, ctx):
                 cur = {fm: refhash.digest(fm, content[f]) for fm in E}
                 for fm, (d, a) in E.items():
                     require(d == cur[fm], "digest", "%s %s: recorded %s, bytes hash to %s" % (f, fm, d, cur[fm]), res)
-                led = ledger[f]
+                led = ledger.setdefault((h, f), {})
                 if not led:
                     require(set(E) == set(F), "first-gen-formats", "%s: recorded %s, requested %s" % (f, sorted(E), F), res)
                     for fm, (d, a) in E.items():
                         require(a == "original", "original-first", "%s %s first recorded with action %r" % (f, fm, a), res)
-                    first_content[f] = content[f]
+                    first_content[(h, f)] = content[f]
                     for fm, (d, a) in E.items():
                         led[fm] = d
                     continue
@@ -166,7 +185,7 @@ def run_case(scn, ctx):
                     want = "verified" if d == led[fm] else "failed"
                     require(a == want, "action", "%s %s gen %d: action %r, expected %r (first digest %s, now %s)" % (f, fm, gi + 1, a, want, led[fm], d), res)
                     any_failed |= want == "failed"
-                is_altered = content[f] != first_content[f]
+                is_altered = content[f] != first_content[(h, f)]
                 require(any_failed == is_altered, "failed-recorded", "%s gen %d: altered=%s but failed entry present=%s" % (f, gi + 1, is_altered, any_failed), res)
                 if any_failed:
                     ctx.event("failed_recorded")
@@ -186,6 +205,8 @@ def run_case(scn, ctx):
             ctx.event("restore")
         if scn["nested"]:
             ctx.event("nested")
+        if len(scn["nested"] or []) >= 3:
+            ctx.event("nested_depth>=3")
         if any(g["sf"] for g in gens):
             ctx.event("sf")
         ctx.mark_nontrivial((n >= 3 and fmt_change) or (alters and restores))
